@@ -423,13 +423,22 @@ func (m *ndModel) clone() *ndModel {
 // ---- checkpoint restore crash runs ----
 
 type restoreStep struct {
-	kind string // start | chunk | finalize
+	kind string // start | chunk | finalize | abort
 	idx  int
 }
 
+// restorePlan is the sequence of restore steps of a crash run. A third of the plans (own PRNG)
+// end with the restore being given up after some of the chunks (abort) instead of finalized.
 func restorePlan(n int, seed uint64) []restoreStep {
 	plan := []restoreStep{{kind: "start"}}
-	for _, i := range core.NewRand(seed).Perm(n) {
+	perm := core.NewRand(seed).Perm(n)
+	if ar := core.NewRand(seed ^ 0xab027); n >= 1 && ar.Chance(1, 3) {
+		for _, i := range perm[:ar.Range(1, n)] {
+			plan = append(plan, restoreStep{kind: "chunk", idx: i})
+		}
+		return append(plan, restoreStep{kind: "abort"})
+	}
+	for _, i := range perm {
 		plan = append(plan, restoreStep{kind: "chunk", idx: i})
 	}
 	return append(plan, restoreStep{kind: "finalize"})
@@ -509,6 +518,9 @@ func childRestore(k *CRKnobs, dir string, opIdx int, arm func(), report func(str
 			_, err = rs.RestoreChunk(ctx, uint64(s.idx), bytesReader(chunks[s.idx]))
 		case "finalize":
 			err = dst.Finalize([]node.Root{root})
+		case "abort":
+			_ = rs.AbortRestore(ctx)
+			err = dst.AbortMultipartInsert()
 		}
 		if err != nil {
 			report(fmt.Sprintf("restore step %d (%s) failed: %v", i, s.kind, err))
@@ -583,6 +595,46 @@ func (e CrashEngine) executeRestore(sc *core.Scenario, k *CRKnobs, base, scFile 
 				var detail string
 				if dst, detail = restoreAfterlife(ctx, backend, filepath.Join(dir, "dst"), dst, root, contents, k.Restore.SchedSeed+uint64(hit), st); detail != "" {
 					v = crViol("finalized-lost-after-crash-and-later-operations", "finalized-lost-after-crash-and-later-operations "+backend, fmt.Sprintf("%s: the restore took full effect; %s", where, detail))
+				}
+				return
+			}
+			if (k.Restore.SchedSeed+uint64(hit))%2 == 1 {
+				// Not finalized, and the node gives the checkpoint up: the version arrives the
+				// ordinary way (the same contents committed as a regular batch give the same root)
+				// and must be completely readable once finalized.
+				rootType := node.RootType(k.Restore.RootType)
+				t := mkvs.New(nil, dst, rootType)
+				for _, kk := range contents.SortedKeys() {
+					if err := t.Insert(ctx, []byte(kk), contents[kk]); err != nil {
+						t.Close()
+						v = crViol("regular-commit-after-interrupted-restore-failed", "regular-commit-after-interrupted-restore-failed "+backend, fmt.Sprintf("%s: insert into a fresh tree after reopen failed: %v", where, err))
+						return
+					}
+				}
+				_, h, err := t.Commit(ctx, Namespace, k.Restore.Version)
+				t.Close()
+				if err != nil {
+					v = crViol("regular-commit-after-interrupted-restore-failed", "regular-commit-after-interrupted-restore-failed "+backend, fmt.Sprintf("%s: the regular commit of the checkpointed contents at version %d after reopen failed: %v", where, k.Restore.Version, err))
+					return
+				}
+				if !h.Equal(&root.Hash) {
+					core.Harnessf("crash/restore: the regular commit of the checkpointed contents gives root %s, the checkpoint has %s", h, root.Hash)
+				}
+				if err := dst.Finalize([]node.Root{root}); err != nil {
+					v = crViol("regular-commit-after-interrupted-restore-failed", "regular-commit-after-interrupted-restore-failed "+backend, fmt.Sprintf("%s: Finalize of the regularly committed root after reopen failed: %v", where, err))
+					return
+				}
+				t2 := mkvs.NewWithRoot(nil, dst, root)
+				err = CompareDump(ctx, t2, contents)
+				t2.Close()
+				if err != nil {
+					v = crViol("regular-commit-after-interrupted-restore-unreadable", "regular-commit-after-interrupted-restore-unreadable "+backend, fmt.Sprintf("%s: after reopen the same contents were committed as a regular batch (same root) and finalized, but: %v", where, err))
+					return
+				}
+				st.Inc("probe.regular_commit_after_interrupted_restore_ok")
+				var detail string
+				if dst, detail = restoreAfterlife(ctx, backend, filepath.Join(dir, "dst"), dst, root, contents, k.Restore.SchedSeed+uint64(hit), st); detail != "" {
+					v = crViol("finalized-lost-after-crash-and-later-operations", "finalized-lost-after-crash-and-later-operations "+backend, fmt.Sprintf("%s: a regular commit after reopen succeeded; %s", where, detail))
 				}
 				return
 			}
